@@ -196,6 +196,30 @@ def num_misc(ex, st, callee, args, m):
     return NotImplemented
 
 
+_UF = {}
+
+
+def uf(name, *sorts):
+    k = (name,) + tuple(str(s) for s in sorts)
+    if k not in _UF: _UF[k] = z3.Function(name, *sorts)
+    return _UF[k]
+
+
+@model(r'^core::num::<impl (%s)>::(wrapping_pow|pow|saturating_pow)$' % _PRIM)
+def int_pow(ex, st, callee, args, m):
+    """integer powers with a symbolic exponent: uninterpreted function of (base, exponent) — equalities between identical calls only"""
+    a, b = args
+    f = uf('%s_%s' % (m.group(2), m.group(1)), a.sort(), b.sort(), a.sort())
+    return f(a, b)
+
+
+@model(r'^(?:std::f64::|core::f64::)?<impl f64>::(powi|powf|ln|log10|log2|exp|sin|cos|tan)$')
+def f64_transcendental(ex, st, callee, args, m):
+    """powi/powf/ln/exp/trigonometric functions: uninterpreted (never used to prove numeric facts)"""
+    f = uf('f64_' + m.group(1), *([a.sort() for a in args] + [F64]))
+    return f(*args)
+
+
 @model(r'^(?:std::f64::|core::f64::)?<impl f64>::(abs|is_nan|is_infinite|is_finite|min|max|floor|ceil|round|trunc|sqrt|is_sign_negative|is_sign_positive|fract|signum|to_bits|from_bits|clamp)$')
 def f64_misc(ex, st, callee, args, m):
     """f64 helper methods with IEEE semantics (min/max ignore a NaN operand)"""
